@@ -931,3 +931,69 @@ Corollary accept_well_formed_doc_eps eps aeps t :
 Proof. intros W G. apply (accept_well_formed_doc (Some (eps, aeps)) eps aeps t W); [intros; reflexivity|exact G]. Qed.
 
 End Accept.
+
+(* ------------------------------------------------------------------ *)
+(* no geometric side condition when hard modules have one rectangle     *)
+(* ------------------------------------------------------------------ *)
+(* the rectangles attribute holds one entry: [x, y, w, h] or [[x, y, w, h]] *)
+Definition one_entry (v : ytree) : Prop :=
+  wf_rect_entry false v \/ exists x, v = YList [x] /\ wf_rect_entry false x.
+
+(* every hard module of the document has one rectangle (soft modules: any number) *)
+Definition hard_single_rect (t : ytree) : Prop :=
+  forall name info v, module_at t name info -> lookup KW_RECTANGLES info = Some v ->
+    doc_hard info = true -> one_entry v.
+
+Lemma entry_rect_some f hd ra t : wf_rect_entry ra t -> exists g, entry_rect f hd t = Some g.
+Proof.
+  intros (x & y & w & h & tl & sx & sy & sw & sh & -> & Ex & Ey & Ew & Eh & _).
+  unfold entry_rect, as_number. rewrite Ex, Ey, Ew, Eh. eauto.
+Qed.
+
+Lemma one_entry_rects f hd v : one_entry v -> exists g, doc_rects f hd v = [g].
+Proof.
+  intros [He|(x & -> & He)].
+  - destruct (entry_rect_some f hd _ _ He) as (g & Hg).
+    destruct He as (x & y & w & h & tl & sx & sy & sw & sh & -> & Ex & _).
+    unfold doc_rects. unfold as_number at 1. rewrite Ex. cbn [is_some]. rewrite Hg. exists g. reflexivity.
+  - destruct (entry_rect_some f hd _ _ He) as (g & Hg).
+    unfold doc_rects. rewrite (entry_not_number _ _ He). cbn [is_some flat_map]. rewrite Hg. exists g. reflexivity.
+Qed.
+
+Lemma single_rect_geometry eps aeps t :
+  well_formed_doc t -> hard_single_rect t -> doc_geometry_ok eps aeps t.
+Proof.
+  intros W Hs name info v Hat Hl. cbn zeta. split.
+  - intros Hh _. destruct (one_entry_rects (flag KW_FIXED info) (doc_hard info) v (Hs _ _ _ Hat Hl Hh)) as (g & ->).
+    reflexivity.
+  - intros Hf.
+    assert (Hh : doc_hard info = true).
+    { destruct W as (items & -> & _ & _ & Hm & _).
+      destruct Hat as (items' & mods & E & H1 & H2). inversion E; subst items'; clear E.
+      destruct (Hm _ H1) as (mods' & E & _ & Hmods). inversion E; subst mods'; clear E.
+      destruct (Hmods _ _ H2) as (_ & info' & E & Wi). inversion E; subst info'; clear E.
+      destruct (doc_hard info) eqn:Ed; [reflexivity|]. destruct (wi_soft _ Wi Ed) as [_ B]. congruence. }
+    destruct (one_entry_rects (flag KW_FIXED info) (doc_hard info) v (Hs _ _ _ Hat Hl Hh)) as (g & ->).
+    exact I.
+Qed.
+
+Section AcceptSingle.
+Variable sqrt_o : Qc -> Qc.
+
+(* unconditional acceptance: a well-formed document whose hard modules have one
+   rectangle each is loaded, whatever the epsilon state *)
+Theorem accept_well_formed_doc_single e t :
+  well_formed_doc t -> hard_single_rect t -> exists n, read_netlist sqrt_o e t = Ok n.
+Proof.
+  intros W Hs.
+  destruct (parse_netlist t) as [[ms es]|r] eqn:Ep.
+  - destruct (match epsilon_after sqrt_o e ms with Some p => p | None => (0, 0) end) as [eps aeps] eqn:Ee.
+    apply (accept_well_formed_doc sqrt_o e eps aeps t W).
+    + intros ms' es' Hp. rewrite Ep in Hp. inversion Hp; subst. exact Ee.
+    + apply single_rect_geometry; assumption.
+  - apply (accept_well_formed_doc sqrt_o e 0 0 t W).
+    + intros ms' es' Hp. rewrite Ep in Hp. discriminate.
+    + apply single_rect_geometry; assumption.
+Qed.
+
+End AcceptSingle.
